@@ -3,7 +3,8 @@
 case = {"files": {relpath: source}, "roots": [top-level dir or file names], "order": [module full names] | None,
         "queries": [[ctx_id, dotted], ...]}
    every module / class / function of the sources has the docstring '@@<full name at definition>' = its identity.
-out  = {"objs": {fullName: {"kind", "id", "amap": {name: target}|None, "base": id|None, "state"}},
+out  = {"own": [[ctx_id, name, ctx_fullName, expandName, resolved|None], ...]  (every name of contents/alias map of every namespace),
+        "objs": {fullName: {"kind", "id", "amap": {name: target}|None, "base": id|None, "state"}},
         "results": [[ctx_fullName|None, expandName, [fullName, id]|None], ...], "reports": [...]}
        or {"error": "..."} when an exception escaped."""
 import contextlib, io, json, os, shutil, sys, tempfile
@@ -87,7 +88,21 @@ def run_case(case):
             ex = ctx.expandName(dotted)
             r = ctx.resolveName(dotted)
             results.append([ctx.fullName(), ex, [r.fullName(), ident(r), kind_of(r)] if r is not None else None])
-        return {'objs': objs, 'results': results, 'reports': reports}
+        # every name pydoctor itself knows in a namespace (contents + alias map), resolved in that namespace: lets the
+        # harness check names that Python does NOT bind (e.g. names invented by a star import)
+        own = []
+        for i, ctx in byid.items():
+            if not isinstance(ctx, model.CanContainImportsDocumentable):
+                continue
+            seen = set()
+            for name in list(ctx.contents) + list(ctx._localNameToFullName_map):
+                if name in seen or ' ' in name or (name.startswith('__') and name.endswith('__')):
+                    continue
+                seen.add(name)
+                r = ctx.resolveName(name)
+                own.append([i, name, ctx.fullName(), ctx.expandName(name),
+                            [r.fullName(), ident(r), kind_of(r)] if r is not None else None])
+        return {'objs': objs, 'results': results, 'reports': reports, 'own': own}
     except BaseException as e:  # noqa
         import traceback
         return {'error': '%s: %s' % (type(e).__name__, e), 'tb': traceback.format_exc()[-1500:]}
